@@ -572,5 +572,51 @@ def rule_j(prog, rep):
         rep.ok('C11.j', 'forward_to_followers', f.loc, 'for (id, tx) in list { tx.send(cmd.clone()) }; dead ones removed after the pass')
 
 
-RULES = [('C11.j', rule_j), ('C11.i', rule_i), ('C11.a', rule_a), ('C11.b', rule_b), ('C11.c', rule_c), ('C11.d', rule_d), ('C11.e', rule_e), ('C11.f', rule_f),
+def rule_k(prog, rep):
+    rep.rule('C11.k', 'T7+T3', 'import and join are mirrored in full: the leader mirrors every changed entry of an import with force = '
+             'true (the import itself overwrote whatever was there: Set(key, value, true) for a plain entry, CSet(key, value, '
+             'version, true) for a CAS entry), for exactly the entries whose `changed` flag is set, and answers the importer '
+             'afterwards; the follower propagates a failed initial_sync with `?` (it does not go on with a partial state)')
+    crate = prog.crate(WB)
+    tf = crate.fn(f'{LEADER}::try_forward_api_call')
+    b = Bindings(crate, tf)
+    problems = []
+    sets = [nd for nd, a in crate.walk_fn(tf) if (ctor_name(nd) or '').endswith('ClientWriteCommand::Set')]
+    csets = [nd for nd, a in crate.walk_fn(tf) if (ctor_name(nd) or '').endswith('ClientWriteCommand::CSet')]
+    if len(sets) != 1 or b.origins(sets[0]['args'][2]) != {'lit(True)'} or not any('#Plain.0' in x for x in b.origins(sets[0]['args'][1])):
+        problems.append('a plain imported entry is not mirrored as Set(key, value, force = true)')
+    if len(csets) != 1 or b.origins(csets[0]['args'][3]) != {'lit(True)'} or not any('#Cas.0' in x for x in b.origins(csets[0]['args'][1])) or \
+            not any('#Cas.1' in x for x in b.origins(csets[0]['args'][2])):
+        problems.append('a CAS imported entry is not mirrored as CSet(key, value, version, force = true)')
+    fw = [(nd, a) for nd, a in crate.walk_fn(tf) if nd.get('k') == 'call' and callee(nd) == 'forward_to_followers']
+    in_loop = [(nd, a) for nd, a in fw if any(isinstance(x, dict) and x.get('k') == 'for' for x in a)]
+    if len(in_loop) != 1:
+        problems.append(f'{len(in_loop)} forwarding sites inside the loop over the imported entries')
+    else:
+        nd, anc = in_loop[0]
+        g = [it for it in guards(anc + (nd,)) if it[0] == 'if']
+        lp = [x for x in anc if isinstance(x, dict) and x.get('k') == 'for'][-1]
+        inner = [it for it in g if any(y is it[1] for y, _ in walk(lp['body']))]
+        okg = len(inner) == 1 and inner[0][2] is True and all('[*]' in x and x.endswith('[1]') for x in b.origins(strip_not(inner[0][1])[0])) and \
+            strip_not(inner[0][1])[1] is True
+        if not okg:
+            problems.append('the mirrored entries are not exactly those with changed == true')
+    f = crate.fn(f'{FOLLOWER}::run_in_follower_mode')
+    isy = [(nd, a) for nd, a in crate.walk_fn(f) if nd.get('k') == 'call' and callee(nd) == f'{FOLLOWER}::initial_sync']
+    okp = len(isy) == 1
+    if okp:
+        chain = [x for x in isy[0][1] if isinstance(x, dict)]
+        par = chain[-1] if chain else {}
+        if par.get('k') == 'await':
+            par = chain[-2] if len(chain) > 1 else {}
+        okp = par.get('k') == 'try'
+    if not okp:
+        problems.append('a failed initial_sync is not propagated with `?`')
+    if problems:
+        rep.violation('C11.k', 'import-and-join', tf.loc, '; '.join(problems), key='C11.k/' + '|'.join(problems))
+    else:
+        rep.ok('C11.k', 'import-and-join', tf.loc, 'changed entries -> Set / CSet with force = true; initial_sync(..)?')
+
+
+RULES = [('C11.k', rule_k), ('C11.j', rule_j), ('C11.i', rule_i), ('C11.a', rule_a), ('C11.b', rule_b), ('C11.c', rule_c), ('C11.d', rule_d), ('C11.e', rule_e), ('C11.f', rule_f),
          ('C11.g', rule_g), ('C11.h', rule_h)]
